@@ -78,30 +78,34 @@ func TestC06(t *testing.T) {
 		synctest.Test(t, func(t *testing.T) { c06Script(r, id) })
 	})
 	// node level: suspicion / refutation / re-suspicion / stale timers / name reuse
-	forCases(n/4, 62, "h", func(i int, r *rng, id string) {
-		c := randomCfg(r)
-		c.reclaim = r.chance(1, 2)
-		k := 4 + r.intn(20)
-		ops := []mop{{kind: 'A', node: "n2", inc: 1, addr: 2}, {kind: 'A', node: "n3", inc: 1, addr: 7}}
-		nt := 0
-		for j := 0; j < k; j++ {
-			switch r.intn(10) {
-			case 0, 1:
-				ops = append(ops, mop{kind: 'S', node: "n1", inc: uint32(1 + r.intn(3)), from: []string{"S", "n2", "n3"}[r.intn(3)]})
-			case 2:
-				ops = append(ops, mop{kind: 'A', node: "n1", inc: uint32(1 + r.intn(3)), addr: []int{1, 1, 2}[r.intn(3)], port: r.intn(2)})
-			case 3:
-				ops = append(ops, mop{kind: 'D', node: "n1", inc: uint32(1 + r.intn(3)), from: []string{"n1", "n2"}[r.intn(2)]})
-			case 4, 5:
-				ops = append(ops, mop{kind: 'F', timer: r.intn(5)})
-			case 6:
-				ops = append(ops, mop{kind: 'G', node: "n1"})
-			default:
-				ops = append(ops, randomOp(r, c, 0, &nt))
-			}
-		}
-		runHistory("C06", id, c, ops)
-	})
+	forCases(n/4, 62, "h", func(i int, r *rng, id string) { timerHistory("C06", r, id) })
 	// suspicionTimeout (the minimum of the suspicion timer) against its integer model
 	forCases(8, 63, "sc", func(i int, r *rng, id string) { scaleLeg("C06", "susp", r, id, 0) })
+}
+
+// timerHistory: node-level histories around one member's suspicion: suspicion / refutation / re-suspicion /
+// stale and current dead claims / timer expiry / name reuse.
+func timerHistory(prop string, r *rng, id string) {
+	c := randomCfg(r)
+	c.reclaim = r.chance(1, 2)
+	k := 4 + r.intn(20)
+	ops := []mop{{kind: 'A', node: "n2", inc: 1, addr: 2}, {kind: 'A', node: "n3", inc: 1, addr: 7}}
+	nt := 0
+	for j := 0; j < k; j++ {
+		switch r.intn(10) {
+		case 0, 1:
+			ops = append(ops, mop{kind: 'S', node: "n1", inc: uint32(1 + r.intn(3)), from: []string{"S", "n2", "n3"}[r.intn(3)]})
+		case 2:
+			ops = append(ops, mop{kind: 'A', node: "n1", inc: uint32(1 + r.intn(3)), addr: []int{1, 1, 2}[r.intn(3)], port: r.intn(2)})
+		case 3:
+			ops = append(ops, mop{kind: 'D', node: "n1", inc: uint32(1 + r.intn(3)), from: []string{"n1", "n2"}[r.intn(2)]})
+		case 4, 5:
+			ops = append(ops, mop{kind: 'F', timer: r.intn(5)})
+		case 6:
+			ops = append(ops, mop{kind: 'G', node: "n1"})
+		default:
+			ops = append(ops, randomOp(r, c, 0, &nt))
+		}
+	}
+	runHistory(prop, id, c, ops)
 }
